@@ -200,7 +200,7 @@ def fine_exhaustive(deep: bool, rng=None) -> Iterable[Dict[str, Any]]:
     """schedules R^a W^b R^c W^d (then round-robin): the writer is pre-empted after every one of its first b
     accesses, the recorder after every one of its accesses, for all a and all b; thorough: a spread of c / d for
     each (a, b); quick: c = 0 and one seeded (c, d) per (a, b)"""
-    cs = [1, 2, 3, 5, 8, 13, 30]
+    cs = [1, 2, 3, 5, 9, 30]
     dsw = [0, 4]
     for dss, ops in SMALL_PROGRAMS:
         base = {"ds": dss, "ops": number_ops(ops), "faults": []}
@@ -448,7 +448,7 @@ def run(res: C.Result, deep: bool):
         items.append((f"ge{n}", "G", case)); n += 1
     for case in fine_fault_sweep(deep):
         items.append((f"gf{n}", "G", case)); n += 1
-    nfr = (8000, 1500) if deep else (700, 150)
+    nfr = (5000, 1000) if deep else (700, 150)
     for _ in range(nfr[0]):
         items.append((f"gr{n}", "G", fine_random(rng, long=False))); n += 1
     for _ in range(nfr[1]):
